@@ -396,7 +396,7 @@ theorem get_atomic (p : Prog) (s : Sys) (r n : Nat) (hr : s.rst r = .idle)
 /-! ### non-vacuity -/
 
 def exTrace : Input :=
-  { free := false, writers := [⟨0, 1⟩, ⟨0, 1⟩], nkeys := 1,
+  { free := false, writers := [⟨0, 1⟩, ⟨0, 1⟩], nkeys := 1, urls := [],
     events := [⟨.get, 0, 0⟩, ⟨.create, 0, 0⟩, ⟨.write, 0, 2⟩, ⟨.create, 1, 0⟩, ⟨.write, 1, 1⟩, ⟨.close, 0, 0⟩,
                ⟨.rename, 0, 0⟩, ⟨.get, 0, 0⟩, ⟨.crash, 1, 0⟩, ⟨.probe, 0, 0⟩] }
 
@@ -426,19 +426,19 @@ example : Holds exTrace
   decide
 
 /-- a bundle stored for another URL is not acceptable in a free run either -/
-example : Holds { free := true, writers := [⟨0, 1⟩, ⟨1, 1⟩], nkeys := 2, events := [] }
+example : Holds { free := true, writers := [⟨0, 1⟩, ⟨1, 1⟩], nkeys := 2, urls := [], events := [] }
     { gets := [], probes := [], seen := [⟨0, .complete, 1, true⟩] } = false := by decide
 
 /-- in a free run, a miss after a Set for the URL returned is a violation -/
-example : Holds { free := true, writers := [⟨0, 1⟩, ⟨1, 1⟩], nkeys := 2, events := [] }
+example : Holds { free := true, writers := [⟨0, 1⟩, ⟨1, 1⟩], nkeys := 2, urls := [], events := [] }
     { gets := [], probes := [], seen := [⟨0, .miss, 0, true⟩] } = false := by decide
 
-example : Holds { free := true, writers := [⟨0, 1⟩, ⟨1, 1⟩], nkeys := 2, events := [] }
+example : Holds { free := true, writers := [⟨0, 1⟩, ⟨1, 1⟩], nkeys := 2, urls := [], events := [] }
     { gets := [], probes := [], seen := [⟨0, .miss, 0, false⟩, ⟨0, .complete, 0, true⟩, ⟨1, .complete, 1, true⟩] } = true := by
   decide
 
 def exTrace2 : Input :=
-  { free := false, writers := [⟨0, 1⟩, ⟨0, 1⟩], nkeys := 1,
+  { free := false, writers := [⟨0, 1⟩, ⟨0, 1⟩], nkeys := 1, urls := [],
     events := [⟨.create, 0, 0⟩, ⟨.write, 0, 2⟩, ⟨.close, 0, 0⟩, ⟨.rename, 0, 0⟩, ⟨.create, 1, 0⟩,
                ⟨.write, 1, 2⟩, ⟨.close, 1, 0⟩, ⟨.rename, 1, 0⟩, ⟨.get, 0, 0⟩] }
 
